@@ -146,7 +146,8 @@ pub enum BytesCase {
   /// every strict prefix of a valid proof
   ProofTruncations,
   /// lengths around the limits
-  AroundLimit { which: u8, delta: i8, fill: u8 },
+  /// (delta >= 60000 is an absolute length instead: 2^16 and beyond)
+  AroundLimit { which: u8, delta: i32, fill: u8 },
   /// mutated valid key
   PkMutated { ntags: u16, seed: u64, muts: Vec<PkMut> },
   /// entries out of order / repeated
@@ -161,7 +162,7 @@ fn bytes_strat(_t: Tier) -> BoxedStrategy<BytesCase> {
   prop_oneof![
     2 => (0u16..12, any::<u64>()).prop_map(|(ntags, seed)| BytesCase::PkTruncations { ntags, seed }),
     1 => Just(BytesCase::ProofTruncations),
-    3 => (0u8..2, -2i8..3, any::<u8>()).prop_map(|(which, delta, fill)| BytesCase::AroundLimit { which, delta, fill }),
+    3 => (0u8..2, prop_oneof![6 => -2i32..3, 2 => prop_oneof![Just(65536i32), Just(65537), Just(65536 + 64), Just(65536 + 8488), Just(65536 + 16384), Just(131072 + 64)]], any::<u8>()).prop_map(|(which, delta, fill)| BytesCase::AroundLimit { which, delta, fill }),
     4 => (0u16..40, any::<u64>(), vec(pk_mut_strategy(), 1..3)).prop_map(|(ntags, seed, muts)| BytesCase::PkMutated { ntags, seed, muts }),
     3 => (2u16..20, any::<u64>(), vec((any::<u16>(), any::<u16>()), 0..4), proptest::option::of((any::<u16>(), any::<u16>()))).prop_map(|(ntags, seed, swaps, dup)| BytesCase::PkShuffled { ntags, seed, swaps, dup }),
     3 => prop_oneof![uniform_bytes(64, 64), uniform_bytes(0, 70), Just(Hx(vec![0xFF; 64])), Just(Hx(vec![0xED; 64]))].prop_map(BytesCase::ProofBytes),
@@ -310,7 +311,7 @@ fn bytes_oracle(c: &BytesCase, st: &mut Stats) -> Result<(), String> {
       if *which == 0 {
         // a maximal valid key: 256 tags = 8488 bytes < limit; pad a valid key up to the limit +- delta
         let mut b = honest_pk(256, *fill as u64)?;
-        let target = (MAX_SERIALIZED_PK_SIZE as i64 + *delta as i64) as usize;
+        let target = if *delta >= 60000 { *delta as usize } else { (MAX_SERIALIZED_PK_SIZE as i64 + *delta as i64) as usize };
         b.resize(target, *fill);
         judge_pk_with_trailing(&b, st)?;
         // and a count field that promises more than the limit allows
@@ -319,7 +320,7 @@ fn bytes_oracle(c: &BytesCase, st: &mut Stats) -> Result<(), String> {
         judge_pk_with_trailing(&big, st)?;
         st.class("around-pk-limit");
       } else {
-        let target = (MAX_SERIALIZED_PROOF_SIZE as i64 + *delta as i64) as usize;
+        let target = if *delta >= 60000 { *delta as usize } else { (MAX_SERIALIZED_PROOF_SIZE as i64 + *delta as i64) as usize };
         let s = Server::new(vec![1]).map_err(|e| e.to_string())?;
         let (bl, _) = Client::blind(b"x");
         let ev = s.eval(&bl, 1, true).map_err(|e| e.to_string())?;
@@ -555,7 +556,7 @@ pub fn property() -> Property {
   Property {
     id: "C15",
     level: "exploration",
-    rule: "round trips: public keys for tag-set sizes 0..256 (all 257 sizes enumerated in thorough, a spread in quick) with proofs / evaluations / points from generated requests: restored == original, re-serialisation identical, documented layout (32-byte base, u64 count, sorted (u8, point) entries; proof = c || s), and all 12 combinations of {original, restored} key x evaluation x point verify. bytes: every strict prefix of valid key and proof encodings is refused; lengths limit-2..limit+2 for both limits; mutated keys (count field values, undecodable points, tags, appended bytes), unsorted and repeated-tag entry lists, arbitrary 64-byte proofs, raw strings - an accepted value must equal what an independent reader of the documented form extracts from the same bytes (a repeated tag takes its last entry), bytes that do not hold a complete value must be refused. JSON: 31/32/33-byte and other payloads, broken base64, wrong types, objects without an output member for evaluations; point texts as arrays of 0..70 numbers (one possibly not a byte), as strings, alone and inside a list of points - only a text that spells exactly 32 bytes may come back as a point. Non-trivial: tag-set size >= 2, a string within 2 bytes of a limit, a truncation or any refused string.",
+    rule: "round trips: public keys for tag-set sizes 0..256 (all 257 sizes enumerated in thorough, a spread in quick) with proofs / evaluations / points from generated requests: restored == original, re-serialisation identical, documented layout (32-byte base, u64 count, sorted (u8, point) entries; proof = c || s), and all 12 combinations of {original, restored} key x evaluation x point verify. bytes: every strict prefix of valid key and proof encodings is refused; lengths limit-2..limit+2 for both limits and lengths of 2^16 and beyond that equal an admissible length modulo 2^16; mutated keys (count field values, undecodable points, tags, appended bytes), unsorted and repeated-tag entry lists, arbitrary 64-byte proofs, raw strings - an accepted value must equal what an independent reader of the documented form extracts from the same bytes (a repeated tag takes its last entry), bytes that do not hold a complete value must be refused. JSON: 31/32/33-byte and other payloads, broken base64, wrong types, objects without an output member for evaluations; point texts as arrays of 0..70 numbers (one possibly not a byte), as strings, alone and inside a list of points - only a text that spells exactly 32 bytes may come back as a point. Non-trivial: tag-set size >= 2, a string within 2 bytes of a limit, a truncation or any refused string.",
     assumptions: vec![
       "bincode's tolerance of trailing bytes after a complete value is not fixed by the property and is not asserted",
       "Evaluation is deserialised with serde_json::from_str / from_slice, as every caller in the repository does (the base64 adapter borrows the string)",
